@@ -51,6 +51,8 @@ type cpEntry struct {
 	Key       string // batch key chain|token|nonce
 	Subject   skywaytypes.OutgoingTxBatch
 	FirstSeen int64
+	Act       string // activation state of the chain when the checkpoint was first seen (activate.go)
+	InfoID    string // compass unique id of the evm chain info at that time (monitor's model)
 }
 
 // confirmation: a signature a validator produced over an issued checkpoint.
@@ -170,6 +172,12 @@ type mon struct {
 	stopped bool
 	nSample int
 	startH  int64
+
+	// deployment / activation states (activate.go)
+	act  map[string]*chainAct
+	plan []actPlan
+	acts []actDone
+	nAct int
 }
 
 type outMsg struct {
@@ -214,6 +222,7 @@ func run(c fw.Case, tier string, rec *fw.Recorder) {
 	_ = m.c.App.TreasuryKeeper.SetSecurityFee(m.c.Ctx(), "0.02")
 	rec.Sample(map[string]any{"params": p, "tokens": w.Tokens, "start_height": m.c.Height})
 	m.startH = m.c.Height
+	m.planActivations(c.Seed)
 	m.cur = m.observe()
 	m.absorb(m.cur, nil)
 	for b := 0; b < p.Blocks && !m.stopped; b++ {
@@ -336,14 +345,14 @@ func (m *mon) absorb(o obs, br *chain.BlockResult) {
 		}
 		ext := b.ToExternal()
 		// the published bytes must be the checkpoint of the stored batch (reference encoder)
-		ref, ok := refCheckpoint(&ext, m.w.Compass[b.ChainReferenceID])
+		ref, ok := refCheckpoint(&ext, m.infoID(b.ChainReferenceID))
 		m.rec.Eval(1)
 		if !ok || hex.EncodeToString(ref) != cp {
 			m.rec.Inconclusive(fmt.Sprintf("reference checkpoint encoder disagrees with stored BytesToSign for batch %s (ref ok=%v %x, stored %s)", key, ok, ref, cp))
 			m.stopped = true
 			return
 		}
-		e := &cpEntry{CP: cp, Chain: b.ChainReferenceID, Key: key, Subject: ext, FirstSeen: o.h}
+		e := &cpEntry{CP: cp, Chain: b.ChainReferenceID, Key: key, Subject: ext, FirstSeen: o.h, Act: m.actState(b.ChainReferenceID), InfoID: m.infoID(b.ChainReferenceID)}
 		if len(bt.entries) == 0 && b.GasEstimate == 0 {
 			e.Stage = "built"
 		} else {
@@ -357,6 +366,7 @@ func (m *mon) absorb(o obs, br *chain.BlockResult) {
 		bt.entries = append(bt.entries, e)
 		m.archive[cp] = e
 		m.rec.Count("checkpoints_archived:"+e.Stage, 1)
+		m.rec.Count("checkpoints_archived_in_activation_state:"+e.Act+"/"+e.Stage, 1)
 		if e.Rebuilt {
 			m.rec.Count("checkpoints_archived:of-rebuilt-batch", 1)
 		}
@@ -437,6 +447,12 @@ func (m *mon) step() {
 	m.seq = map[string]uint64{}
 	m.pendEv = nil
 	pre := m.cur
+
+	// --- deployments: (re-)activations of chains planned for this boundary
+	m.activationOps(h)
+	if m.stopped {
+		return
+	}
 
 	// --- users: bridge traffic
 	for _, u := range w.Users {
@@ -595,7 +611,7 @@ func (m *mon) pigeonBatchOps(h int64) {
 				m.evNonce[b.ChainReferenceID]++
 				m.ethH += uint64(1 + r.Intn(5))
 				for vi, v := range w.Vals {
-					m.claimsQ[vi] = append(m.claimsQ[vi], world.MsgBatchClaim(v, b.ChainReferenceID, w.Compass[b.ChainReferenceID], m.evNonce[b.ChainReferenceID], m.ethH,
+					m.claimsQ[vi] = append(m.claimsQ[vi], world.MsgBatchClaim(v, b.ChainReferenceID, m.claimCompassID(b.ChainReferenceID), m.evNonce[b.ChainReferenceID], m.ethH,
 						b.BatchNonce, b.TokenContract.GetAddress().Hex()))
 				}
 				m.rec.Count("remote_batch_executed", 1)
@@ -669,10 +685,11 @@ func cloneBatch(b skywaytypes.OutgoingTxBatch) skywaytypes.OutgoingTxBatch {
 
 func (m *mon) refVerdict(ec evCase) verdict {
 	v := verdict{Signer: -1}
-	compass, ok := m.w.Compass[ec.ChainRef]
-	if !ok {
+	if _, ok := m.w.Compass[ec.ChainRef]; !ok {
 		return v
 	}
+	// the id the evm chain info carries now (changes only when a newer compass takes over)
+	compass := m.infoID(ec.ChainRef)
 	subj := ec.Subject
 	cp, ok := refCheckpoint(&subj, compass)
 	if !ok {
@@ -736,6 +753,7 @@ func (m *mon) judge(ec evCase, ver verdict, before, after []bool, accepted bool,
 		if ver.Signer >= 0 {
 			w["signed_by_validator"] = m.w.Vals[ver.Signer].Name + " " + m.w.Vals[ver.Signer].ValBech()
 		}
+		m.actWitness(w, ec.ChainRef, ver.Entry)
 		for k, v := range extra {
 			w[k] = v
 		}
@@ -774,10 +792,22 @@ func (m *mon) judge(ec evCase, ver verdict, before, after []bool, accepted bool,
 		m.rec.Count(fmt.Sprintf("replay_tried:%s/signed=%s/now=%s", ec.Mode, ver.Entry.Stage, ec.State), 1)
 		if before[ver.Signer] {
 			m.rec.Count("replay_signer_already_jailed", 1)
+		} else {
+			// non-vacuous replays by the activation state the checkpoint was issued in / the chain is in now
+			m.rec.Count("replay_tried_activation:issued-in="+ver.Entry.Act+"/signed="+ver.Entry.Stage, 1)
+			m.rec.Count("replay_tried_activation:issued-in="+ver.Entry.Act+"/now="+m.actState(ec.ChainRef), 1)
 		}
 	}
 	m.rec.Count("evidence_"+ec.Mode+":"+strings.SplitN(ec.Kind, ":", 2)[0], 1)
-	m.rec.Distinct(fmt.Sprintf("ev|%s|%s|%s|%s|%s|%s|issued=%v|signer=%v", ec.Mode, ec.Kind, ec.Stage, ec.State, m.senderClass(ec.Sender, ver), outcome, ver.Issued, ver.Signer >= 0))
+	actKey := ""
+	if len(m.acts) > 0 {
+		// histories that re-activate chains: the activation state is part of the tuple
+		actKey = "|act=" + m.actState(ec.ChainRef)
+		if ver.Entry != nil {
+			actKey += "|issued-in=" + ver.Entry.Act
+		}
+	}
+	m.rec.Distinct(fmt.Sprintf("ev|%s|%s|%s|%s|%s|%s|issued=%v|signer=%v%s", ec.Mode, ec.Kind, ec.Stage, ec.State, m.senderClass(ec.Sender, ver), outcome, ver.Issued, ver.Signer >= 0, actKey))
 	if m.nSample < 2 && ver.Issued && ver.Signer >= 0 {
 		m.nSample++
 		m.rec.Sample(map[string]any{"evidence_replay": map[string]any{"height": m.c.Height, "mode": ec.Mode, "kind": ec.Kind, "signed_stage": ec.Stage, "batch_now": ec.State,
@@ -920,7 +950,7 @@ func (m *mon) fabricate(e *cpEntry) (skywaytypes.OutgoingTxBatch, string) {
 			}
 			s.Transactions = s.Transactions[:len(s.Transactions)-1]
 		}
-		cp, ok := refCheckpoint(&s, m.w.Compass[e.Chain])
+		cp, ok := refCheckpoint(&s, m.infoID(e.Chain))
 		if !ok {
 			continue
 		}
@@ -959,7 +989,7 @@ func (m *mon) hostileCase() (evCase, bool) {
 			return ec, false
 		}
 		vi := r.Intn(len(m.w.Vals))
-		cp, _ := refCheckpoint(&s, m.w.Compass[e.Chain])
+		cp, _ := refCheckpoint(&s, m.infoID(e.Chain))
 		ec.Subject, ec.Kind = s, "bad:"+what
 		ec.SigHex = hex.EncodeToString(world.EthSign(m.w.Vals[vi].EthKey, cp))
 	case x < 7: // a key that belongs to no validator
@@ -967,7 +997,7 @@ func (m *mon) hostileCase() (evCase, bool) {
 		if what == "" {
 			return ec, false
 		}
-		cp, _ := refCheckpoint(&s, m.w.Compass[e.Chain])
+		cp, _ := refCheckpoint(&s, m.infoID(e.Chain))
 		ec.Subject, ec.Kind = s, "foreign-key"
 		ec.SigHex = hex.EncodeToString(world.EthSign(m.w.Users[r.Intn(len(m.w.Users))].EthKey, cp))
 	case x < 9: // a genuine signature glued to a different (fabricated) batch
